@@ -106,6 +106,23 @@ async def scenario(loop, rnd, w, spec, stats):
         await pool.prune_inactive_connections(db)
         w.check_bound('prune(%s)' % db)
     ptasks = [loop.create_task(pruner(at, db)) for at, db in spec.get('prunes', [])]
+    # clients that keep asking: acquire, hold, release, again -- for `dur` virtual seconds.  Oracle (bounded stand-in for "eventually served" under sustained load):
+    # every looper is served at least once although the others were served many times, and a scripted request with a deadline is served within it
+    loop_stats = {}; w.loop_stats = loop_stats
+    for li, (at, db, hold, dur) in enumerate(spec.get('loopers', [])):
+        loop_stats[li] = dict(db=db, served=0, served_by_80pct=None)
+        async def looper(li=li, at=at, db=db, hold=hold, dur=dur):
+            await asyncio.sleep(at); t_end = loop.time() + dur
+            async def checkpoint():      # what each looper had got when 80% of the run was over (afterwards the others stop asking and anybody is served)
+                await asyncio.sleep(0.8 * dur); loop_stats[li]['served_by_80pct'] = loop_stats[li]['served']
+            loop.create_task(checkpoint())
+            while loop.time() < t_end:
+                stats['started'] += 1
+                c = await pool.acquire(db)
+                if c.holder is not None or c.state != 'open' or c.db != db: w.fail('C15 lending', 'looper %d was lent %r for %s' % (li, c, db))
+                c.holder = 'looper%d' % li; await asyncio.sleep(hold); c.holder = None
+                pool.release(db, c); w.check_bound('release by looper %d' % li); stats['served'] += 1; loop_stats[li]['served'] += 1      # (asks again at once)
+        tasks.append(loop.create_task(looper()))
     if spec.get('script'):
         # one driver task executing steps strictly one after the other (what a single server task does): ('acq', key, db) / ('rel', key) / ('prune', db) /
         # ('sleep', t) / ('bg', key, db): start an acquire in the background / ('wait', key): the background acquire must complete, then release it
@@ -125,6 +142,12 @@ async def scenario(loop, rnd, w, spec, stats):
                 elif st[0] == 'sleep': await asyncio.sleep(st[1])
                 elif st[0] == 'bg': bg[st[1]] = loop.create_task(acq(st[1], st[2]))
                 elif st[0] == 'wait':
+                    if len(st) > 2:      # ('wait', key, deadline): the background request must have been served `deadline` virtual seconds from now
+                        done_, _ = await asyncio.wait([bg[st[1]]], timeout=st[2])
+                        if not done_:
+                            w.fail('C16 liveness', 'a queued request for %r was not served within %.1f virtual seconds while other databases were served %d times; blocks %s'
+                                   % (st[1], st[2], sum(v['served'] for v in loop_stats.values()), {k: (len(b.conns), b.pending_conns, b.conn_waiters_num, b.quota, getattr(b, 'suppressed', None)) for k, b in pool._blocks.items()}))
+                            bg[st[1]].cancel(); continue
                     await bg[st[1]]
                     db, c = held.pop(st[1]); c.holder = None; pool.release(db, c)
         tasks.append(loop.create_task(driver()))
@@ -142,6 +165,11 @@ async def scenario(loop, rnd, w, spec, stats):
     mon = loop.create_task(monitor())
     done, pending = await asyncio.wait(tasks, timeout=spec['horizon'])
     mon.cancel()
+    if loop_stats and not w.failure:
+        total = sum(v['served'] for v in loop_stats.values())
+        starved = [(li, v['db']) for li, v in loop_stats.items() if v['served_by_80pct'] == 0]
+        if starved and total >= 50:
+            w.fail('C16 liveness', 'client(s) %s kept a request pending for 80%% of the run and were not served once while the others were served %d times: %s' % (starved, total, loop_stats))
     if ptasks: await asyncio.wait(ptasks, timeout=60.0)      # (never cancel a prune in flight: that would cancel its disconnects)
     if pending:
         blocked = [i for i, t in enumerate(tasks) if t in pending]
@@ -223,6 +251,15 @@ def patterns():
     yield dict(maxcap=3, clients=[(0.0, 'A', 0.01, False)] * 6, slow=[0.0, 0.1], fail_rate=0.3, gc=120.0, horizon=600.0)
     yield dict(maxcap=3, clients=[(0.0, 'A', 0.0, False)] * 5 + [(0.0, 'B', 0.0, False)] * 3, slow=[0.0], fail_rate=1.0, gc=120.0, horizon=600.0)
 
+def patterns2():
+    # more databases than connections, every client asks again at once: the waitlist of new blocks must be served in arrival order (no database starves)
+    yield dict(maxcap=1, clients=[], loopers=[(0.0, 'A', 0.002, 3.0), (0.0, 'B', 0.002, 3.0), (0.0, 'C', 0.002, 3.0)], slow=[0.001], fail_rate=0.0, gc=120.0, horizon=600.0)
+    yield dict(maxcap=2, clients=[], loopers=[(0.0, 'db%d' % i, 0.002, 3.0) for i in range(5)], slow=[0.001], fail_rate=0.0, gc=120.0, horizon=600.0)
+    # a waiter is woken by release(), and before its task runs the very connection is pruned; meanwhile another database keeps the pool busy
+    yield dict(maxcap=2, clients=[], loopers=[(0.0035, 'Y', 0.002, 4.0), (0.0035, 'Y', 0.002, 4.0)],
+               script=[('acq', 'x1', 'X'), ('acq', 'y1', 'Y'), ('bg', 'w', 'X'), ('sleep', 0), ('sleep', 0), ('sleep', 0), ('rel', 'x1'), ('prune', 'X'), ('sleep', 0.01), ('rel', 'y1'), ('wait', 'w', 3.0)],
+               slow=[0.001], fail_rate=0.0, gc=120.0, horizon=600.0)
+
 def main():
     seed, n, out = int(sys.argv[1]), int(sys.argv[2]), sys.argv[3]
     res = dict(scenarios=0, clients=0, served=0, reported_failures=0, failure_C15=None, failure_C16=None)
@@ -231,7 +268,7 @@ def main():
         if w.failure:
             key = 'failure_C16' if w.failure['kind'].startswith('C16') else 'failure_C15'      # crashes of pool tasks count against C15 (accounting)
             if not res[key]: res[key] = dict(w.failure, scenario=label, spec=spec)
-    for k, spec in enumerate(patterns()):
+    for k, spec in enumerate(list(patterns()) + list(patterns2())):
         w, stats, spec = run_one(seed * 1000 + k, spec); account(w, stats, spec, 'pattern %d' % k)
     k = 0
     while not (res['failure_C15'] and res['failure_C16']) and k < n:
